@@ -193,6 +193,11 @@ func (s *Sim) genApp() Op {
 			a.Queue = "root.nosuch"
 		}
 	}
+	if r.Bool(0.03) {
+		// a submission that must be rejected: no user
+		a.User = ""
+		a.Groups = nil
+	}
 	if r.Bool(s.pf.Gang) {
 		a.GangStyle = pick(r, []string{"Soft", "Hard"})
 		a.TimeoutMs = pick(r, []int64{2000, 10000, 60000, 0})
@@ -229,17 +234,27 @@ func (s *Sim) genAsks(appID string) Op {
 			// real asks are usually the placeholder's size, sometimes smaller or larger
 			if ph := s.phRes(appID, a.TaskGroup); ph != nil {
 				a.Res = ph.Clone()
-				switch r.Intn(6) {
-				case 0:
+				switch r.Intn(8) {
+				case 0, 1:
+					// smaller than the placeholder
 					for _, k := range sortedKeys(a.Res) {
-						if a.Res[k] > 1 {
+						if a.Res[k] > 1 && r.Bool(0.7) {
 							a.Res[k]--
 						}
 					}
-				case 1:
+				case 2:
+					// larger on a type the placeholder has
 					for _, k := range sortedKeys(a.Res) {
 						a.Res[k]++
 						break
+					}
+				case 3:
+					// asks for a type the placeholder does not have at all
+					for _, t := range resTypes {
+						if _, ok := a.Res[t]; !ok {
+							a.Res[t] = int64(r.Range(1, 2))
+							break
+						}
 					}
 				}
 			}
@@ -300,10 +315,19 @@ func (s *Sim) genAdvance() Op {
 
 // genOp draws the next operation from the current shim-view state.
 func (s *Sim) genOp() (Op, bool) {
+	for try := 0; try < 20; try++ {
+		if op, ok := s.genOpOf(s.pickKind(s.opWeights())); ok {
+			return op, true
+		}
+	}
+	return Op{Kind: "sched"}, true
+}
+
+// genOpOf draws an operation of the given kind from the current shim-view state.
+func (s *Sim) genOpOf(kind string) (Op, bool) {
 	r := s.rng
 	sh := s.shim
-	for try := 0; try < 20; try++ {
-		kind := s.pickKind(s.opWeights())
+	for try := 0; try < 1; try++ {
 		switch kind {
 		case "sched":
 			return Op{Kind: "sched"}, true
@@ -460,6 +484,15 @@ func (s *Sim) genOp() (Op, bool) {
 			if len(apps) == 0 || len(ids) == 0 {
 				continue
 			}
+			if pend := s.pendingAsks(); len(pend) > 0 && r.Bool(0.5) {
+				// the RM binds an ask itself that the scheduler still has pending (possibly reserved elsewhere)
+				m := pick(r, pend)
+				if !m.Placeholder {
+					s.faults["rm_placed_pending"]++
+					return Op{Kind: "ask", Asks: []AskArgs{{Key: m.Key, App: m.App, Res: m.Res.Clone(), Priority: m.Priority, TaskGroup: m.TaskGroup, RequiredNode: m.RequiredNode,
+						PreemptSelf: m.PreemptSelf, PreemptOther: m.PreemptOther, Originator: m.Originator, Node: pick(r, ids)}}, Fault: "rm_placed_pending"}, true
+				}
+			}
 			s.nAsk++
 			app := pick(r, apps)
 			s.faults["rm_placed"]++
@@ -479,6 +512,30 @@ func (s *Sim) genOp() (Op, bool) {
 				}
 			}
 			continue
+		case "batch":
+			// requests that travel on different channels, and a scheduling cycle, in flight at the same time
+			var sub []Op
+			n := r.Range(2, 3)
+			saved := s.cfg.Faults
+			for tries := 0; len(sub) < n && tries < 12; tries++ {
+				k := s.pickKind(weights{"sched": 5, "ask": 3, "release": 3, "node_update": 2, "node_remove": 1, "node_drain": 1, "app_remove": 1, "foreign": 2, "app_add": 1, "rm_place": 1})
+				f := map[string]bool{}
+				for kk, v := range saved {
+					f[kk] = v
+				}
+				f["xchan_reorder"] = false
+				s.cfg.Faults = f
+				o, ok := s.genOpOf(k)
+				s.cfg.Faults = saved
+				if ok && o.Kind != "advance" && o.Kind != "complete" && o.Kind != "batch" && o.Kind != "timed" {
+					sub = append(sub, o)
+				}
+			}
+			if len(sub) < 2 {
+				continue
+			}
+			s.faults["xchan_reorder"]++
+			return Op{Kind: "batch", Sub: sub}, true
 		case "timed":
 			if op, ok := s.genTimed(); ok {
 				return op, true
@@ -511,7 +568,7 @@ func (s *Sim) genOp() (Op, bool) {
 			}
 		}
 	}
-	return Op{Kind: "sched"}, true
+	return Op{}, false
 }
 
 // genTimed aligns an operation with a deadline of the core: the completing timeout of an application,
